@@ -171,6 +171,38 @@ func runC20(c *Ctx) {
 		c.Check(okDel, "C20.R3", "filterHTML: Content-Encoding removed on success", fh.Pos(), "Header.Del(\"Content-Encoding\") on every success path", "the body is served decompressed but Content-Encoding is kept")
 	}
 
+	// ---------- R5 tag builder ----------
+	{
+		c.Rule("C20.R5", "EFF", "the tag builder renders into a buffer of its own: one tag per call, independent of earlier calls", 1)
+		bad := ""
+		nExec := 0
+		eachInstr(inject, func(_ *ssa.BasicBlock, in ssa.Instruction) {
+			cl, ok := in.(*ssa.Call)
+			if !ok || cl.Call.StaticCallee() == nil {
+				return
+			}
+			n := calleeName(cl.Call.StaticCallee())
+			if strings.HasSuffix(n, "template.Template).Execute") {
+				nExec++
+				// the writer must be a fresh local buffer
+				w := cl.Call.Args[1]
+				if mi, ok := w.(*ssa.MakeInterface); ok {
+					w = mi.X
+				}
+				if _, isAlloc := w.(*ssa.Alloc); !isAlloc {
+					bad = c.P.Pos(cl.Pos()) + ": the tag is rendered into a buffer that is not local to the call (" + w.String() + "): text left by an earlier call (another page) is returned again, so a page gets several tags"
+				}
+			}
+			if strings.Contains(n, "sync.Pool") {
+				bad = c.P.Pos(cl.Pos()) + ": the tag builder takes its buffer from a pool; without a Reset the previous pages' tags are still in it"
+			}
+		})
+		if nExec != 1 && bad == "" {
+			bad = fmt.Sprintf("UNDECIDED: expected one template execution, found %d", nExec)
+		}
+		c.Check(bad == "", "C20.R5", shortFn(inject)+": renders into a fresh local buffer", inject.Pos(), "template.Execute(&localBuffer, params)", bad)
+	}
+
 	// ---------- R4 finder ----------
 	if matcher == nil {
 		c.Fail("C20.R4", "anchor:matcher", finder.Pos(), "unresolved anchor: the finder calls no three-argument matcher")
